@@ -677,16 +677,25 @@ fn value_kind(v: &Value) -> &'static str {
     }
 }
 
+/// does the value have the shape the static type promises? Aggregates are checked member by member (members
+/// that are still unevaluated expressions, or native wrappers standing for let-bound names, are not judged).
 fn kind_matches(t: &Type, v: &Value) -> bool {
     match (t, v) {
         (Type::Any, _) => true,
         (Type::Integer, Value::Integer(_)) => true,
         (Type::Boolean, Value::Boolean(_)) => true,
         (Type::String, Value::String(_)) => true,
-        (Type::Array(_), Value::Array(_)) => true,
-        (Type::Tuple(_), Value::Tuple(_)) => true,
+        (Type::Array(et), Value::Array(ms)) => ms.iter().all(|m| member_matches(et, m)),
+        (Type::Tuple(ts), Value::Tuple(ms)) => ts.len() == ms.len() && ts.iter().zip(ms.iter()).all(|(t, m)| member_matches(t, m)),
         (Type::NativeObject(_), Value::NativeObject(_)) => true,
         _ => false,
+    }
+}
+
+fn member_matches(t: &Type, m: &Value) -> bool {
+    match m {
+        Value::Identifier(_) | Value::OpCall(_) | Value::NativeObject(_) => true,
+        _ => matches!(t, Type::NativeObject(_)) || kind_matches(t, m),
     }
 }
 
@@ -1081,6 +1090,48 @@ pub fn one_level(atoms: &[X], cond_atoms: &[X], mut emit: impl FnMut(X)) {
     }
 }
 
+/// Wide arrays: every array literal of three members over a small atom set (the checker has to compare every member
+/// with every other one, whatever the first member is), then indexed once and twice and compared.
+pub fn wide_array_family(mut emit: impl FnMut(X)) {
+    let s = |t: &str| X::Str(t.to_string());
+    let bx = |x: X| Box::new(x);
+    let atoms = vec![
+        X::Int(0),
+        s("a"),
+        X::Bool(true),
+        X::Arr(vec![]),
+        X::Arr(vec![X::Int(1), X::Int(2)]),
+        X::Arr(vec![s("a"), s("1")]),
+        X::Arr(vec![X::Bool(true)]),
+        X::Arr(vec![X::Arr(vec![])]),
+        X::Tup(vec![X::Int(1), s("a")]),
+        X::Tup(vec![X::Arr(vec![]), X::Int(1)]),
+        X::Req("request.target.port"),
+        X::Req("request.target.host"),
+    ];
+    for a in &atoms {
+        for b in &atoms {
+            for c in &atoms {
+                let arr = X::Arr(vec![a.clone(), b.clone(), c.clone()]);
+                emit(arr.clone());
+                for k in 0..3i64 {
+                    let at = X::Index(bx(arr.clone()), bx(X::Int(k)));
+                    emit(at.clone());
+                    let at0 = X::Index(bx(at.clone()), bx(X::Int(0)));
+                    emit(at0.clone());
+                    emit(X::Bin(">", bx(at0.clone()), bx(X::Int(100))));
+                    emit(X::Bin("=~", bx(at0), bx(s("a"))));
+                    emit(X::Bin("+", bx(at.clone()), bx(X::Int(1))));
+                    emit(X::TupAt(bx(at), 1));
+                }
+                emit(X::Index(bx(arr.clone()), bx(X::Bin("%", bx(X::Req("request.target.port")), bx(X::Int(3))))));
+                emit(X::Bin("_:", bx(X::Int(1)), bx(arr.clone())));
+                emit(X::Call("strcat", vec![arr]));
+            }
+        }
+    }
+}
+
 /// Scoping family: aggregates (tuples, arrays) whose members mention let-bound names, used after the name has
 /// been re-bound, after the aggregate has left the scope it was written in, or through another binding.
 pub fn scoping_family(mut emit: impl FnMut(X)) {
@@ -1228,6 +1279,17 @@ fn check() {
         samples.push(show(&d3[d3.len() / 2]));
     }
 
+    // wide arrays (exhaustive over its grammar)
+    let mut wf: Vec<X> = vec![];
+    wide_array_family(|x| wf.push(x));
+    let acc_w = runner.accepted.load(Ordering::Relaxed);
+    par_for(wf.len(), |i| {
+        runner.run(&wf[i]);
+    });
+    let wf_accepted = runner.accepted.load(Ordering::Relaxed) - acc_w;
+    if wf_accepted < 200 {
+        machinery(format!("vacuous wide-array family: {} of {} accepted", wf_accepted, wf.len()));
+    }
     // scoping family (exhaustive over its grammar)
     let mut sf: Vec<X> = vec![];
     scoping_family(|x| sf.push(x));
@@ -1251,10 +1313,10 @@ fn check() {
         "exhaustive": true,
         "states": runner.outcomes.len(), "transitions": evals + trees, "traces_validated_against_impl": trees,
         "evaluations": trees, "distinct_nontrivial": accepted,
-        "rule": "all trees with one operator node over the leaf set (depth 1, exhaustive); all trees with one operator node over leaves + one representative depth-1 tree per (static type, outcome vector) class (depth 2); thorough adds a depth-3 slice; scoping family: 4 literals x 10 aggregate shapes mentioning a let-bound name x 16 uses x {plain, aggregate leaves the name's scope, sibling binding, name re-bound to each of 4 literals (nested / same let)}. non-trivial = accepted by the real checker (then evaluated under up to 6 request environments). states = distinct (static type, per-environment outcome) vectors",
+        "rule": "all trees with one operator node over the leaf set (depth 1, exhaustive); all trees with one operator node over leaves + one representative depth-1 tree per (static type, outcome vector) class (depth 2); thorough adds a depth-3 slice; wide arrays: all 3-member array literals over 12 atoms, indexed once / twice / by a request-dependent index and used in comparisons, membership and strcat; scoping family: 4 literals x 10 aggregate shapes mentioning a let-bound name x 16 uses x {plain, aggregate leaves the name's scope, sibling binding, name re-bound to each of 4 literals (nested / same let)}. non-trivial = accepted by the real checker (then evaluated under up to 6 request environments). states = distinct (static type, per-environment outcome) vectors",
         "trees": trees, "accepted_by_checker": accepted, "rejected_by_checker": runner.rejected.load(Ordering::Relaxed),
         "evaluations_run": evals, "compared_with_reference_value": runner.ref_compared.load(Ordering::Relaxed),
-        "leaves": leaves.len(), "depth1": d1.len(), "depth2_atoms": atoms2.len(), "depth2": d2.len(), "depth3": d3n, "scoping_family": sf.len(), "scoping_family_accepted": sf_accepted,
+        "leaves": leaves.len(), "depth1": d1.len(), "depth2_atoms": atoms2.len(), "depth2": d2.len(), "depth3": d3n, "wide_arrays": wf.len(), "wide_arrays_accepted": wf_accepted, "scoping_family": sf.len(), "scoping_family_accepted": sf_accepted,
         "environments": envs.iter().map(|e| e.name).collect::<Vec<_>>(),
         "samples": samples,
     });
